@@ -460,47 +460,25 @@ func (w *World) ruleAlwaysWrites(r *Report, rule string) {
 				}
 			}
 		}
-		idx := errIndex(fn.Signature)
-		ok := true
-		seen := map[*ssa.BasicBlock]bool{}
-		var walk func(b *ssa.BasicBlock)
-		walk = func(b *ssa.BasicBlock) {
-			if seen[b] || ev[b] || !ok {
-				return
-			}
-			seen[b] = true
-			if ret, isRet := b.Instrs[len(b.Instrs)-1].(*ssa.Return); isRet {
-				e := ret.Results[idx]
-				if w.nonNilErr(e, nil, nil, 0) {
-					return
-				}
-				if env := f.At(b); env != nil {
-					if s, has := env["("+f.term(e).Key()+" != nil:error)"]; has && s.Equal(single(1)) {
-						return
-					}
-				}
-				ok = false
-				why[fn] = "a return at " + w.instrPos(ret) + " can report success on a path that wrote nothing"
-				return
-			}
-			for _, s2 := range b.Succs {
-				walk(s2)
-			}
+		// paths are walked edge by edge with the error-typed φ-nodes resolved by the
+		// edge taken (alwayswrites_paths.go): a single exit `return n, err` fed by a
+		// φ of the arms' results is the same as one return per arm
+		bad := w.silentSuccessReturn(fn, f, ev)
+		if bad == nil {
+			return true
 		}
-		walk(fn.Blocks[0])
-		if !ok {
-			// the block-level walk joins paths: a helper's "handled" flag and what the
-			// helper wrote are correlated only path by path
-			ok2, why2 := w.pxAlwaysWrites(fn, aw, leaf)
-			if os.Getenv("HLINT_AWDEBUG") != "" {
-				fmt.Fprintf(os.Stderr, "AW %s px=%v %s\n", fnName(fn), ok2, why2)
-			}
-			if ok2 {
-				ok = true
-				delete(why, fn)
-			}
+		why[fn] = "a return at " + w.instrPos(bad) + " can report success on a path that wrote nothing"
+		// the edge-level walk still joins what two helpers returned: a helper's
+		// "handled" flag and what the helper wrote are correlated only path by path
+		ok2, why2 := w.pxAlwaysWrites(fn, aw, leaf)
+		if os.Getenv("HLINT_AWDEBUG") != "" {
+			fmt.Fprintf(os.Stderr, "AW %s px=%v %s\n", fnName(fn), ok2, why2)
 		}
-		return ok
+		if ok2 {
+			delete(why, fn)
+			return true
+		}
+		return false
 	}
 	for changed := true; changed; {
 		changed = false
